@@ -327,6 +327,17 @@ def cv_worker(job):
             if len(rs) == 1:
                 out['cp'] = graph_stages.cp_lines(rs[0], tx_fields(tx), var_field(tx, dict(idmap)),
                                                   dict(idmap), kw['cleavage_rule'], exc)
+                if opts.get('tvgbuild'):
+                    # structural correspondence with the function-level model (Model/Tvg.lean)
+                    tb = graph_stages.tvgbuild_case(rs[0], tx, tx_fields(tx), idmap)
+                    if tb is None:
+                        out['stats']['tvgbuild_skipped_not_small_records'] = 1
+                    else:
+                        out['tvgbuild'] = tb[:2]
+                        if not tb[2]:
+                            out['stats']['tvgbuild_records_differ_from_loader'] = 1
+                        elif [v[:5] for v in tx['vars']] != [v[:5] for v in rs[0].tvg_given]:
+                            out['stats']['tvgbuild_record_order_differs_from_loader'] = 1
             else:
                 out['stats']['stage_dumps_%d' % len(rs)] = 1
         out['real'] = sorted(run.fasta.keys())
